@@ -15,6 +15,8 @@ package sdf
 
 import (
 	"fmt"
+	"sync"
+	"sync/atomic"
 
 	v2 "github.com/deadsy/sdfx/vec/v2"
 )
@@ -25,7 +27,8 @@ import (
 type CacheSDF2 struct {
 	sdf         SDF2
 	cache       map[v2.Vec]float64
-	reads, hits uint
+	lock        sync.RWMutex // Evaluate is called concurrently by the renderers
+	reads, hits atomic.Uint64
 }
 
 // Cache2D wraps the passed SDF2 with an evaluation cache.
@@ -37,19 +40,25 @@ func Cache2D(sdf SDF2) SDF2 {
 }
 
 func (s *CacheSDF2) String() string {
-	r := float64(s.hits) / float64(s.reads)
-	return fmt.Sprintf("reads %d hits %d (%.2f)", s.reads, s.hits, r)
+	reads, hits := s.reads.Load(), s.hits.Load()
+	r := float64(hits) / float64(reads)
+	return fmt.Sprintf("reads %d hits %d (%.2f)", reads, hits, r)
 }
 
 // Evaluate returns the minimum distance to a cached 2d sdf.
 func (s *CacheSDF2) Evaluate(p v2.Vec) float64 {
-	s.reads++
-	if d, ok := s.cache[p]; ok {
-		s.hits++
+	s.reads.Add(1)
+	s.lock.RLock()
+	d, ok := s.cache[p]
+	s.lock.RUnlock()
+	if ok {
+		s.hits.Add(1)
 		return d
 	}
-	d := s.sdf.Evaluate(p)
+	d = s.sdf.Evaluate(p)
+	s.lock.Lock()
 	s.cache[p] = d
+	s.lock.Unlock()
 	return d
 }
 
